@@ -40,6 +40,10 @@ impl Driver for RoundTrip {
         ]
     }
     fn run(&self, c: &mut Case) -> Outcome {
+        // one case in twelve: a valid module from the repository's own test inputs
+        if c.t.chance(1, 12) {
+            return self.run_corpus(c);
+        }
         let mut profile = Profile::from_tape(&mut c.t);
         if !profile.any_non_mvp() && c.t.chance(4, 5) {
             // at least one non-MVP family in most cases
@@ -128,6 +132,55 @@ impl Driver for RoundTrip {
         }
         if nontrivial1 && special {
             c.nontrivial(fnv(&bytes));
+        }
+        Outcome::Pass
+    }
+}
+
+impl RoundTrip {
+    fn run_corpus(&self, c: &mut Case) -> Outcome {
+        let corpus = crate::corpus::modules();
+        if corpus.is_empty() {
+            return Outcome::Discard("no corpus");
+        }
+        let (name, bytes) = c.t.pick(corpus);
+        let din = match dm::decode(bytes) {
+            Ok(d) => d,
+            Err(_) => return Outcome::Discard("corpus module outside the decoder's subset"),
+        };
+        // the IR has no representation for extended constant expressions (property text)
+        let extended = din.globals.iter().any(|g| g.init.len() > 1) || din.elems.iter().any(|e| e.offset.len() > 1) || din.datas.iter().any(|d| d.offset.len() > 1);
+        if extended {
+            return Outcome::Discard("corpus module uses extended constant expressions");
+        }
+        c.class("origin:corpus");
+        c.note(|| format!("corpus module {}\n{}", name, dm::print_wat(bytes)));
+        let mut module = match lib_parse(bytes, true) {
+            Ok(m) => m,
+            Err(o) => return o,
+        };
+        let out = match lib_encode(&mut module) {
+            Ok(b) => b,
+            Err(o) => return o,
+        };
+        if !self.content {
+            if let Err(e) = dm::validate(&out) {
+                return fail(format!("invalid-output:{}", crate::capture::mask(&strip_offset(&e), 60)), format!("output does not validate: {}", e));
+            }
+        } else {
+            let dout = match dm::decode(&out) {
+                Ok(d) => d,
+                Err(e) => return fail(format!("undecodable-output:{}", crate::capture::mask(&e, 50)), e),
+            };
+            let opts = dm::FlatOpts { by_identity: false, include_names: true, include_customs: true };
+            let a = dm::flatten(&din, &dm::Ids::trivial(&din), &opts);
+            let b = dm::flatten(&dout, &dm::Ids::trivial(&dout), &opts);
+            if let Some((path, l, r)) = dm::first_diff(&a, &b) {
+                return fail(format!("content:{}", dm::path_class(&path)), format!("{}: input {:?} / output {:?}", path, l, r));
+            }
+        }
+        if din.funcs.iter().any(|f| f.ops.len() >= 5) {
+            c.nontrivial(fnv(bytes));
         }
         Outcome::Pass
     }
